@@ -1,7 +1,7 @@
 #!/usr/bin/env python3
 """Regenerates /verif/MANIFEST.json from the per-property table below; a property is claimed only if
 coq/Properties_<id>.v exists and is listed in coq/_CoqProject."""
-import json, os
+import json, os, re
 V = os.path.dirname(os.path.dirname(os.path.abspath(__file__)))
 proj = open(V + '/coq/_CoqProject').read().split()
 T = {
@@ -55,6 +55,11 @@ for i in range(1, 21):
         na.append({'property_id': pid, 'reason': 'not claimed yet: the theorem file coq/Properties_%s.v is still under construction (the correspondence check and oracle exist; see DESIGN.md)' % pid})
         continue
     text, tech = T[pid]
+    more = sorted(f for f in proj if re.match(r'Properties_%s[a-z]\.v$' % pid, f))
+    shared = [f for f in ('Properties_Inv.v', 'Properties_Inv2.v') if f in proj]
+    extra = ''
+    if more:
+        extra = ' Further statement files counted as obligations of this property: ' + ', '.join('coq/' + f for f in more) + (' and, by theorem name, the shared ' + ' / '.join('coq/' + f for f in shared) + ' (history theorems under oracle-state invariants and on scripted worlds)' if shared else '') + '; see DESIGN.md 12.6c.'
     checks.append({
         'property_id': pid,
         'quick_cmd': './check %s --tier quick' % pid,
@@ -63,9 +68,9 @@ for i in range(1, 21):
         'replay_cmd_template': './check replay {path}',
         'engine': 'coq-model+correspondence',
         'level_claimed': {'category': 'proof',
-                          'text': 'Machine-checked Coq theorems about the hand-written Gallina model of cat.c (coq/Properties_%s.v: %s), tied to /repo on every run by a correspondence check (extracted model vs C driver built from /repo\'s working tree, same generated scenarios, traces compared call by call) and by the property oracle evaluated on the implementation\'s traces%s.' % (pid, text, ' — claimed at partial strength, see DESIGN.md' if pid in PARTIAL else ''),
+                          'text': 'Machine-checked Coq theorems about the hand-written Gallina model of cat.c (coq/Properties_%s.v: %s), tied to /repo on every run by a correspondence check (extracted model vs C driver built from /repo\'s working tree, same generated scenarios, traces compared call by call) and by the property oracle evaluated on the implementation\'s traces; in addition 102 function units of cat.c are re-translated from the clang AST on every run and proved equal to the model (translator ties)%s.%s' % (pid, text, ' — claimed at partial strength, see DESIGN.md' if pid in PARTIAL else '', extra),
                           'design_ref': 'DESIGN.md section 6 (%s) and section 12' % pid},
-        'level_note': 'Trusted: Coq 8.16.1 kernel (vm_compute used, native_compute not); no axioms (Print Assumptions: closed under the global context); the model Fsm.v/Codec.v is hand-written and tied to the C code by differential testing (not proof); extraction (ExtrOcamlBasic only) cross-checked in Coq on a sample each run; C driver, generators, oracles; gcc/clang, sanitizers. Handler contract and scope decisions D1-D8 of DESIGN.md.',
+        'level_note': 'Trusted: Coq 8.16.1 kernel (vm_compute used, native_compute not); no axioms (Print Assumptions: closed under the global context); the model Fsm.v/Codec.v is hand-written and tied to the C code by differential testing (not proof); extraction (ExtrOcamlBasic only) cross-checked in Coq on a sample each run; C driver, generators, oracles; gcc/clang, sanitizers. Handler contract and scope decisions D1-D12 of DESIGN.md; translators (clang AST, explicit mapping tables) for the ties.',
         'technique': tech})
 man = {
  'version': 1,
